@@ -293,6 +293,11 @@ def on_solve(algo, mps, qn_mask, ltensor, rtensor, cmo, omega, e, c):
         for ci in cs:
             ray.append(float(np.real(np.vdot(ci, hm @ ci) / np.vdot(ci, ci))) * inverse)
         rec["ray_local_err"] = float(max(abs(a - b) / max(1.0, abs(b)) for a, b in zip(es[: len(ray)], ray))) if ray else 0.0
+        if omega is not None and algo != "direct" and rec["ray_local_err"] > 1e-8:
+            # signature of the transposed two-layer product: (e, c) is a Rayleigh pair of the TRANSPOSE of the masked operator
+            rt = [float(np.real(np.vdot(ci, hm.T @ ci) / np.vdot(ci, ci))) * inverse for ci in cs]
+            if max(abs(a - b) / max(1.0, abs(b)) for a, b in zip(es[: len(rt)], rt)) <= 1e-8:
+                rec["transposed"] = True
         gram = np.array([[np.vdot(a, b) for b in cs] for a in cs])
         rec["ortho_err"] = float(np.abs(gram - np.eye(len(cs))).max())
         w = np.linalg.eigvalsh(hm * inverse) if hm.size else np.zeros(0)
